@@ -11,7 +11,7 @@ use crate::GDErrorKind::{HostLookup, InvalidInput, PacketReceive, PacketSend, Pr
 use crate::{GDResult, TimeoutSettings};
 
 use std::io::Read;
-use std::net::{SocketAddr, SocketAddrV4, SocketAddrV6, ToSocketAddrs};
+use std::net::{IpAddr, SocketAddr, SocketAddrV4, SocketAddrV6, ToSocketAddrs};
 
 use ureq::{Agent, AgentBuilder, Request};
 use url::{Host, Url};
@@ -161,10 +161,13 @@ impl HttpClient {
 
         let client = client_builder.build();
 
-        let host = http_settings
-            .hostname
-            .map(S::into)
-            .unwrap_or_else(|| address.ip().to_string());
+        let host = http_settings.hostname.map(S::into).unwrap_or_else(|| {
+            match address.ip() {
+                IpAddr::V4(ip) => ip.to_string(),
+                // inside a URL an IPv6 address is written in brackets
+                IpAddr::V6(ip) => format!("[{ip}]"),
+            }
+        });
 
         Ok(Self {
             client,
